@@ -1169,4 +1169,100 @@ Section DelivMain.
     - simpl. intros t0 e0 l0 [Hx|[Hx|Hi]]; [discriminate|inversion Hx; subst; intros s1 [<-|[]]; auto|eauto].
     - simpl. intros t0 e0 l0 [Hx|Hi]; [inversion Hx; subst; intros s1 [<-|[]]; auto|eauto].
   Qed.
+
+  Lemma DI_init : DI init.
+  Proof.
+    unfold DI. split; [apply RG_init; assumption|]. split; [apply WC_init; assumption|]. split; [apply WC_init; assumption|].
+    split; [split; [unfold UDp; simpl; repeat split; auto; intros; try constructor; tauto|simpl; auto]|].
+    split; [reflexivity|]. split; [reflexivity|]. split; [|intros t e l []].
+    intros s. exists []. unfold chron. simpl. split; [reflexivity|]. split; [intros Hx; exfalso; apply Hx; reflexivity|].
+    left. split; reflexivity.
+  Qed.
+
+  (* a parked new thread (client call, updater call, heartbeat tick) changes nothing *)
+  Lemma DI_spawn : forall st n p st',
+    DI st -> spawn st n p = Some st' ->
+    (forall q, (q = bad_spawn \/ q = kwbad ev_bad \/ (exists t, q = is_unlock t) \/ (exists t s, q = is_kiddone t s) \/
+                (exists t, q = is_wait t) \/ (exists s, q = nfa ev_bad s) \/ (exists s e, q = nfl ev_bad s e) \/ (exists S, q = bad_tid S)) -> cntl q p = 0) ->
+    cntl (hl st) p = 0 -> (forall t, PT t p = true) -> (forall t s, PK t s p = true) ->
+    (forall s, cntl (is_close s) p = 0) ->
+    DI st'.
+  Proof.
+    intros st n p st' (HR & HC & HT & [HU G0] & HH & HK & HD & HA) Hsp Hq Hh Hpt Hpk Hcl.
+    apply spawn_spec in Hsp. destruct Hsp as [->|[_ ->]]; [exact (conj HR (conj HC (conj HT (conj (conj HU G0) (conj HH (conj HK (conj HD HA)))))))|].
+    destruct HU as (G1 & G2 & G2n & G3 & G4 & G5 & P1 & P2).
+    unfold DI. split; [eapply RG_ext; [|exact HR]; reg_eq_tac|].
+    split; [eapply WC_neutral; [exact HC|instantiate (1 := []); reflexivity|reflexivity|intros; simpl; auto|simpl; auto]|].
+    split; [intros s; simpl; rewrite cnt_app; simpl; rewrite Hcl; specialize (HT s); lia|].
+    split.
+    { split; [|exact G0]. unfold UDp. simpl. repeat split; intros; rewrite ?cnt_app; simpl.
+      - rewrite Hq by (right; right; left; eauto). rewrite G1. lia.
+      - rewrite Hq by (right; right; right; left; eauto). rewrite G2. lia.
+      - auto.
+      - rewrite Hq by (right; right; right; right; left; eauto). specialize (G3 t H). lia.
+      - rewrite Hq by auto. lia.
+      - rewrite Hq by (repeat right; eauto). lia.
+      - rewrite allthr_app. simpl. rewrite P1, Hpt. auto.
+      - rewrite allthr_app. simpl. rewrite P2, Hpk. auto. }
+    split; [simpl; rewrite cnt_app; simpl; rewrite Hh; lia|].
+    split; [simpl; rewrite cnt_app; simpl; rewrite Hq by auto; lia|].
+    split; [|exact HA].
+    intros s. eapply (DO_keep ev_bad) with (a := []); [apply HD|reflexivity|reflexivity|reflexivity|reflexivity|auto| |].
+    - simpl. rewrite cnt_app. simpl. rewrite Hq by (right; right; right; right; right; left; eauto). lia.
+    - intros e. simpl. rewrite cnt_app. simpl. rewrite Hq by (right; right; right; right; right; right; left; eauto). lia.
+  Qed.
+
+  Lemma DI_step : forall st a st', DI st -> stepf st a = Some st' -> DI st'.
+  Proof.
+    intros st a st' HDI Hs. pose proof HDI as (HR & HC & HT & HU & HH & HK & HD & HA).
+    destruct a; simpl in Hs.
+    - eapply DI_spawn; [exact HDI|exact Hs| | | | |]; intros; try (destruct op; reflexivity).
+      destruct H as [->|[->|[[t ->]|[[t [s ->]]|[[t ->]|[[s ->]|[[s [e ->]]|[S ->]]]]]]]]; destruct op; reflexivity.
+    - destruct (Nat.ltb_spec t (ntrig st)); [|discriminate].
+      eapply DI_spawn; [exact HDI|exact Hs| | | | |]; intros; try (destruct op; reflexivity).
+      + destruct H0 as [->|[->|[[t0 ->]|[[t0 [s ->]]|[[t0 ->]|[[s ->]|[[s [e ->]]|[S ->]]]]]]]]; destruct op; reflexivity.
+      + unfold uprog, cntl. simpl. rewrite (proj2 (Nat.leb_gt (ntrig st) t)) by lia. destruct op; reflexivity.
+    - eapply DI_spawn; [exact HDI|exact Hs| | | | |]; intros; try reflexivity.
+      destruct H as [->|[->|[[t ->]|[[t [s ->]]|[[t ->]|[[s ->]|[[s [e ->]]|[S ->]]]]]]]]; reflexivity.
+    - pose proof Hs as Hs0. apply step_AStep in Hs. destruct Hs as (i & rest & st1 & push & sp & Hl & He & Heq).
+      assert (Hlk : forall t, (exists op, i = IULock t op) -> t < ntrig st).
+      { intros t [op ->]. destruct (hl st (IULock t op)) eqn:E.
+        - pose proof (cnt_lookup_ge (hl st) _ _ _ _ Hl E). lia.
+        - simpl in E. apply Nat.leb_gt in E. auto. }
+      assert (HR' : RG st') by (eapply RG_step; eauto).
+      destruct (WI_step fixed flt wresf ev_bad hbfail eq_refl _ _ _ HR HC HT Hs0) as [HC' HT'].
+      unfold DI. split; auto. split; auto. split; auto. subst st'. simpl.
+      split; [eapply UD_ext; [| | | |eapply (UD_astep fixed flt wresf ev_bad hbfail); eauto]; reflexivity|].
+      split; [apply (HL_astep fixed flt wresf ev_bad hbfail _ _ _ _ _ _ _ _ HR HH Hl He)|].
+      split; [apply (KW_astep fixed flt wresf ev_bad hbfail _ _ _ _ _ _ _ _ HK Hl He)|].
+      split; [|intros t e l Hi; eapply (AO_exec _ _ _ _ _ _ HR HA He); eauto].
+      intros s. pose proof (DO_astep fixed flt wresf ev_bad hbfail _ _ _ _ _ _ _ _ HR HU HC HK HD Hl He s) as (tail & A1 & A2 & A3).
+      exists tail. auto.
+  Qed.
+
+  Lemma DI_reachable : forall st, reach st -> DI st.
+  Proof. apply run_inv; [apply DI_init|apply DI_step]. Qed.
+
+  (* delivery_order: what was written to s is a prefix of what was accepted for s -- exact, in
+     order, one Write each; the rest was dropped only after the removal of s, or is the one
+     delivery still in flight; everything accepted passed the filter of s. *)
+  Lemma delivery_order_holds : forall st s, reach st ->
+    exists missed inflight,
+      acc ev_bad s (chron st) = del s (chron st) ++ missed ++ inflight /\
+      (s_removed (subs st s) = false -> missed = []) /\
+      length inflight <= 1 /\
+      (cnt (nfa ev_bad s) (threads st) = 0 -> inflight = []) /\
+      Forall (fun e => flt s e = FPass /\ ev_bad e = false) (acc ev_bad s (chron st)).
+  Proof.
+    intros st s H. apply DI_reachable in H. destruct H as (_ & _ & _ & _ & _ & _ & HD & HA).
+    destruct (HD s) as (tail & H1 & H2 & H3).
+    exists (mis ev_bad s (chron st)), tail. split; auto.
+    split; [intros Hr; destruct (mis ev_bad s (chron st)) eqn:E; auto; specialize (H2 ltac:(discriminate)); congruence|].
+    split; [destruct H3 as [[-> _]|(e & -> & _)]; simpl; lia|].
+    split; [intros Hz; destruct H3 as [[-> _]|(e & _ & Hc & _)]; auto; lia|].
+    apply Forall_forall. intros e He. unfold acc in He. apply in_flat_map in He. destruct He as (o & Ho & He).
+    destruct o; simpl in He; try tauto. destruct (mem s l && negb (ev_bad e0)) eqn:E; [|inversion He].
+    destruct He as [<-|[]]. apply andb_true_iff in E. destruct E as [E1 E2]. split; [|apply negb_true_iff; auto].
+    eapply HA; [apply in_rev; exact Ho|apply mem_In; auto].
+  Qed.
 End DelivMain.
